@@ -19,6 +19,7 @@ type CEnv struct {
 	lets   map[string]*CExpr
 	letEnv *CEnv // env in which lets are evaluated (self)
 	depth  int
+	atCallSite bool // evaluating a callee's contract at a call site: called()/origin() speak about the callee's own path
 }
 
 func (ce *CEnv) child() *CEnv {
@@ -261,6 +262,7 @@ func (ex *Exec) valEq(a, b Val, e *CExpr) *Term {
 			if x.T == Zero {
 				return y.nilTerm()
 			}
+			return ex.valEq(b, a, e)
 		case *SliceV:
 			if x.T.Sort.IsArr() {
 				return Eq(x.T, y.materialize().Arr)
@@ -272,12 +274,27 @@ func (ex *Exec) valEq(a, b Val, e *CExpr) *Term {
 			return Eq(x.ID, y.T)
 		case *ObjV:
 			return Eq(x.ID, y.ID)
+		case *RefV:
+			return ex.valEq(b, a, e)
 		}
 	case *RefV:
 		switch y := b.(type) {
+		case *ObjV:
+			if !x.Nil && x.Cell != nil && len(x.Path) == 0 && ex.cur != nil {
+				if o, ok := ex.cur.store[x.Cell].(*ObjV); ok {
+					return And(Not(x.nilTerm()), Eq(o.ID, y.ID))
+				}
+			}
+			return False
 		case SV:
 			if y.T == Zero {
 				return x.nilTerm()
+			}
+			// a pointer to an opaque object compared with an identity term: the pointee's identity
+			if !x.Nil && x.Cell != nil && len(x.Path) == 0 && ex.cur != nil {
+				if o, ok := ex.cur.store[x.Cell].(*ObjV); ok {
+					return Eq(o.ID, y.T)
+				}
 			}
 		case *RefV:
 			if x.Nil || y.Nil {
@@ -308,6 +325,14 @@ func (ex *Exec) valEq(a, b Val, e *CExpr) *Term {
 		case SV:
 			if y.T.Sort.IsArr() {
 				return Eq(x.materialize().Arr, y.T)
+			}
+			if y.T == Zero {
+				// slice == nil: nil-ness of slices is not tracked; a nil slice has length 0
+				b := Fresh("isnilslice", SBool)
+				if ex.cur != nil {
+					ex.cur.assume(Imp(b, Eq(x.Len, Zero)))
+				}
+				return b
 			}
 		}
 	case *StructV:
@@ -380,6 +405,9 @@ func (ce *CEnv) evalCall(e *CExpr) Val {
 		}
 		return ce.ex.load(st, r, nil)
 	case "origin":
+		if ce.atCallSite {
+			return SV{T: True}
+		}
 		// origin(x, "F|G.0"): x is a result of one of the calls to F (last result by default, or result k with F.k) made on this path
 		v := ce.eval(args[0])
 		st := ce.st
@@ -415,6 +443,9 @@ func (ce *CEnv) evalCall(e *CExpr) Val {
 		}
 		return SV{T: Or(alts...)}
 	case "called":
+		if ce.atCallSite {
+			return SV{T: True}
+		}
 		st := ce.st
 		if st == nil {
 			st = ce.ex.cur
